@@ -1,6 +1,8 @@
 // Correspondence harness for C12 / C18: operation sequences over a forest of four named Values.
 //   valseq [@<roots to print>] <op> ; <op> ; ... -> per step "<ret>#<root0>#<root1>#<root2>#<root3>", steps joined by '|'
 //   valview <op> ; ... ; grp D S key -> "<ret>/<abstract view of the grouped result>" of the final GroupBy
+//   valled <op> ; <op> ; ...     -> "ok"; no dumps, the roots are destroyed before the line is emitted, so with
+//                                   -DVERIF_LEDGER the trace appended by vh::emit is the operations' own (C16)
 // A root prints as "<deep dump>@<getter summary>"; the format is the one of lean/Qentem/Driver/Value.lean.
 // Only the public API is used (slots through GetObject()/GetArray(), the pointee of a ValuePtr through the
 // Is*() getters).  Keys are passed in exact-size heap buffers.
@@ -698,6 +700,19 @@ static StepResult do_op(V *roots, const std::vector<std::string> &t, std::string
         vivify(roots, l)->Reset();
     } else if (op == "cmp" && t.size() == 2 && parse_loc(t[1], l)) {
         vivify(roots, l)->Compress();
+    } else if (op == "rsv" && t.size() == 4 && parse_loc(t[1], l)) {
+        // an empty container that owns storage: Value{ValueType::Object|Array, n} (Size() == 0, Capacity() != 0)
+        V             *tv = vivify(roots, l);
+        const unsigned k  = (unsigned)strtoul(t[2].c_str(), nullptr, 10);
+        const SizeT    n  = SizeT(strtoul(t[3].c_str(), nullptr, 10));
+        if (k == 2 || k == 3) *tv = V{ValueType(k), n};
+    } else if (op == "clr" && t.size() == 2 && parse_loc(t[1], l)) {
+        // items gone, capacity kept: GetObject()->Clear() / GetArray()->Clear()
+        V *tv = vivify(roots, l);
+        if (tv->Type() == ValueType::Object)
+            tv->GetObject()->Clear();
+        else if (tv->Type() == ValueType::Array)
+            tv->GetArray()->Clear();
     } else if ((op == "grp") && t.size() == 4 && parse_loc(t[2], s)) {
         const unsigned        d = (unsigned)strtoul(t[1].c_str(), nullptr, 10) & 3;
         std::vector<uint64_t> k;
@@ -721,11 +736,12 @@ int main() {
     std::string line;
     while (vh::read_line(line)) {
         auto toks = vh::split(line);
-        if (toks.empty() || (toks[0] != "valseq" && toks[0] != "valview")) {
+        if (toks.empty() || (toks[0] != "valseq" && toks[0] != "valview" && toks[0] != "valled")) {
             vh::emit("bad-op");
             continue;
         }
         const bool                            want_view = (toks[0] == "valview");
+        const bool                            ledger    = (toks[0] == "valled"); // no dumps: the trace is the operations' own
         std::vector<std::vector<std::string>> ops;
         ops.emplace_back();
         std::string sel;
@@ -755,13 +771,14 @@ int main() {
                     bad = true;
                     break;
                 }
-                if (!want_view) {
+                if (!want_view && !ledger) {
                     if (k) out += '|';
                     out += r.ret ? "1#" : "0#";
                     out += env_dump(roots.get(), sel);
                 }
             }
             if (want_view) out = view;
+            if (ledger) out = "ok";
         }
         vh::emit(bad ? std::string("bad-op") : out);
     }
